@@ -122,13 +122,13 @@ func (g *Gen) classExpr(depth int, ic bool, dia string) ClassExpr {
 		switch k := g.pick(10); {
 		case k < 3: // single chars incl. ones needing escapes
 			ch := []int{'a', 'b', 'z', 'A', 'Z', '0', '9', '_', '-', ']', '^', '\\', ' ', '\n', 'k', 's', 0xe9, 0x3b1, 0x430}[g.pick(19)]
-			if ic && ch > 127 {
-				ch = 'k'
+			if g.chance(0.1) {
+				ch = []int{0x130, 0x131, 0x17F, 0x212A, 0x3C2, 0x1E9E, 0xDF, 0x1C5, 0x3A3, 0x10400}[g.pick(10)]
 			}
 			c.Rs = append(c.Rs, [2]int{ch, ch})
 		case k < 6: // ranges
 			var lo, hi int
-			if ic || g.chance(0.5) {
+			if g.chance(0.5) {
 				lo = 0x20 + g.pick(0x5f)
 				hi = lo + g.pick(0x7e-lo+1)
 			} else {
@@ -155,20 +155,19 @@ func (g *Gen) classExpr(depth int, ic bool, dia string) ClassExpr {
 			}
 			c.Rs = append(c.Rs, [2]int{lo, hi})
 		case k < 8:
-			sh := []string{"d", "D", "w", "W", "s", "S"}[g.pick(6)]
-			if ic && dia != "net" {
-				// outside the default dialect \D \W \S are ranges with non-ASCII endpoints: under IgnoreCase
-				// they are outside the domain on which case folding has one agreed meaning
-				sh = strings.ToLower(sh)
-			}
-			c.Shs = append(c.Shs, sh)
-		case k < 9 && !ic && dia != "ecma":
+			c.Shs = append(c.Shs, []string{"d", "D", "w", "W", "s", "S"}[g.pick(6)])
+		case k < 9 && dia != "ecma":
 			c.Cats = append(c.Cats, CatRef{N: classCats[g.pick(len(classCats))], Neg: g.chance(0.3)})
 		case dia == "re2":
-			c.Posix = append(c.Posix, CatRef{N: posixNames[g.pick(len(posixNames))], Neg: !ic && g.chance(0.25)})
+			c.Posix = append(c.Posix, CatRef{N: posixNames[g.pick(len(posixNames))], Neg: g.chance(0.25)})
 		default:
 			c.Rs = append(c.Rs, [2]int{'m', 'p'})
 		}
+	}
+	if g.chance(0.08) {
+		// everything except one gap, written positively (stored in complemented form by the canonicaliser)
+		gap := [][2]int{{'A', 'Z'}, {'a', 'z'}, {'0', '9'}, {'K', 'K'}, {0x391, 0x3A9}, {0x212A, 0x212A}, {'A', 'z'}, {0xC0, 0xDE}}[g.pick(8)]
+		c.Rs = append(c.Rs, [2]int{0, gap[0] - 1}, [2]int{gap[1] + 1, 0x10FFFF})
 	}
 	if depth > 0 && g.chance(0.35) {
 		c.Sub = []ClassExpr{g.classExpr(depth-1, ic, dia)}
